@@ -71,3 +71,7 @@ use group::*;
 
 mod run;
 pub use run::*;
+
+#[cfg(any(kani, slotted_egraphs_verif))]
+#[doc(hidden)]
+pub mod verif_hooks;
